@@ -92,15 +92,14 @@ Qed.
 
 (** Grid3Scales (the class production builds) duplicates the momentum formulas: they are
     the same maps, so everything below holds for it as well *)
-Lemma grid3scales_maps_lem T r : -1 < r < 1 ->
-  g3_pz (mk_g3_env T) r = pz_of T r /\ g3_pp (mk_g3_env T) r = pp_of T r /\
-  g3_dpz (mk_g3_env T) r = dpz_of T r /\ g3_dpp (mk_g3_env T) r = dpp_of T r.
+Lemma grid3scales_maps_lem T r :
+  (-1 < r < 1 -> g3_pz (mk_g3_env T) r = pz_of T r /\ g3_dpz (mk_g3_env T) r = dpz_of T r) /\
+  (r < 1 -> g3_pp (mk_g3_env T) r = pp_of T r /\ g3_dpp (mk_g3_env T) r = dpp_of T r).
 Proof.
-  intros H.
   unfold g3_pz, g3_pp, g3_dpz, g3_dpp, pz_of, pp_of, dpz_of, dpp_of, g_decompactify,
     g_compactificationDerivatives.
   cbn [fst snd g_momentumFalloffT g3_momentumFalloffT].
-  repeat split; try ring; field; nra.
+  split; intros H; split; try ring; field; nra.
 Qed.
 
 Lemma pz_of_explicit T r : pz_of T r = 2 * T * atanh_R r.
@@ -158,6 +157,21 @@ Proof.
   - apply position_rescale_current; exact H.
   - apply recache_current.
   - apply g3_position_rescale_current; exact H.
+Qed.
+
+(** a Grid3Scales object: whatever its history, its cached momentum arrays are ITS OWN maps
+    (the g3 definitions) at the current scale, at every node incl. the kept end point rho_par = -1 *)
+Lemma g3_cache_current_lem s : cache_current s ->
+  forall r, (-1 < r < 1 -> s_pzValues s r = g3_pz (mk_g3_env (s_momentumFalloffT s)) r /\
+                         s_dpzdrz s r = g3_dpz (mk_g3_env (s_momentumFalloffT s)) r) /\
+            (r < 1 -> s_ppValues s r = g3_pp (mk_g3_env (s_momentumFalloffT s)) r /\
+                      s_dppdrp s r = g3_dpp (mk_g3_env (s_momentumFalloffT s)) r).
+Proof.
+  intros H r. destruct (H r) as (a & b & c & d).
+  destruct (grid3scales_maps_lem (s_momentumFalloffT s) r) as [Z P].
+  split; intros Hr.
+  - destruct (Z Hr) as [z1 z2]. rewrite a, c, z1, z2. split; reflexivity.
+  - destruct (P Hr) as [p1 p2]. rewrite b, d, p1, p2. split; reflexivity.
 Qed.
 
 (** the scale after a history is the last one set *)
@@ -697,11 +711,22 @@ Proof.
 Qed.
 Print Assumptions massless_nodes_have_positive_energy.
 
-Theorem grid3scales_momentum_maps_are_grids : forall T r, -1 < r < 1 ->
-  g3_pz (mk_g3_env T) r = pz_of T r /\ g3_pp (mk_g3_env T) r = pp_of T r /\
-  g3_dpz (mk_g3_env T) r = dpz_of T r /\ g3_dpp (mk_g3_env T) r = dpp_of T r.
+Theorem grid3scales_momentum_maps_are_grids : forall T r,
+  (-1 < r < 1 -> g3_pz (mk_g3_env T) r = pz_of T r /\ g3_dpz (mk_g3_env T) r = dpz_of T r) /\
+  (r < 1 -> g3_pp (mk_g3_env T) r = pp_of T r /\ g3_dpp (mk_g3_env T) r = dpp_of T r).
 Proof. exact grid3scales_maps_lem. Qed.
 Print Assumptions grid3scales_momentum_maps_are_grids.
+
+Theorem grid3scales_cache_is_current_after_any_history : forall L T s0 ops,
+  let s := fold_left gstep ops (grid_init L T s0) in
+  forall r, (-1 < r < 1 -> s_pzValues s r = g3_pz (mk_g3_env (s_momentumFalloffT s)) r /\
+                         s_dpzdrz s r = g3_dpz (mk_g3_env (s_momentumFalloffT s)) r) /\
+            (r < 1 -> s_ppValues s r = g3_pp (mk_g3_env (s_momentumFalloffT s)) r /\
+                      s_dppdrp s r = g3_dpp (mk_g3_env (s_momentumFalloffT s)) r).
+Proof.
+  intros L T s0 ops s. apply g3_cache_current_lem. apply history_current, init_current.
+Qed.
+Print Assumptions grid3scales_cache_is_current_after_any_history.
 
 Theorem moments_exact_on_class_dx : forall s N msq g f kappa A B,
   (forall c : list R, RInt (fun x => sqrt (1 - x ^ 2) * Ucomb c x) (-1) 1 = PI / 2 * nth 0 c 0) ->
